@@ -130,7 +130,16 @@ func (v Value) AsKey() (Key, bool) {
 const kwPrefix = "ʞ"
 
 // FromImpl converts an implementation value to the model ADT.
-func FromImpl(x types.MalType) Value {
+func FromImpl(x types.MalType) Value { return fromImpl(x, 0) }
+
+// maxDepth bounds the conversion: a deeper (in practice: cyclic) implementation value
+// becomes an opaque marker instead of overflowing the stack.
+const maxDepth = 64
+
+func fromImpl(x types.MalType, depth int) Value {
+	if depth > maxDepth {
+		return Opaque("CYCLIC-OR-TOO-DEEP")
+	}
 	switch t := x.(type) {
 	case nil:
 		return Nil
@@ -148,19 +157,19 @@ func FromImpl(x types.MalType) Value {
 	case types.List:
 		out := make([]Value, len(t.Val))
 		for i, e := range t.Val {
-			out[i] = FromImpl(e)
+			out[i] = fromImpl(e, depth+1)
 		}
 		return Value{K: KList, Elems: out}
 	case types.Vector:
 		out := make([]Value, len(t.Val))
 		for i, e := range t.Val {
-			out[i] = FromImpl(e)
+			out[i] = fromImpl(e, depth+1)
 		}
 		return Value{K: KVec, Elems: out}
 	case types.HashMap:
 		ents := make([]MapEntry, 0, len(t.Val))
 		for k, v := range t.Val {
-			ents = append(ents, MapEntry{implKey(k), FromImpl(v)})
+			ents = append(ents, MapEntry{implKey(k), fromImpl(v, depth+1)})
 		}
 		sort.Slice(ents, func(i, j int) bool { return ents[i].K.less(ents[j].K) })
 		return Value{K: KMap, Ents: ents}
